@@ -60,11 +60,18 @@ def run(ctx):
             return pred[0] == 'call' and pred[1].endswith('Data::is_passive') and show(pred[2][0]) == 'elem(iter(self))'
         flags = [u for u in ups if u['args'][0][2][1] == lit(False, 'bool')]
         pa = [(t, v) for t, v in atoms if passive_any(t)]
+        # `if data.is_passive() { flag = true }`: the same accumulation written as a conditional assignment
+        passive_here = [v for t, v in atoms if t[0] == 'call' and t[1].endswith('Data::is_passive') and len(t[2]) == 1
+                        and t[2][0][0] == 'elem' and 'iter(self)' in show(t[2][0])]
         if len(flags) == 1 and not pa:
             lv, upd = flags[0]['args']
             good = upd[0] == 'bin' and upd[1] == 'BitOr' and upd[2] == lv and upd[3][0] == 'call' \
                 and upd[3][1].endswith('Data::is_passive') and upd[3][2] == (('elem', flags[0]['args'][0][2][0]),)
+            good = good or (upd == lit(True, 'bool') and passive_here == [True]) or (upd == lv and passive_here == [False])
             fa = [v for t, v in atoms if t[0] == 'call' and t[1] == 'loop_result' and t[2][0] == lv]
+        elif not flags and not pa and passive_here == [False]:
+            good = True          # conditional form, this segment is not passive: the flag keeps its value
+            fa = []
         elif pa and not flags:
             good = True
             fa = [v for t, v in pa]
